@@ -576,6 +576,10 @@ impl<T: ToVal + Send + Sync + 'static> Probe<T> {
             let mut g = self.world.lock();
             let st = &mut g.sinks[self.id as usize][sub];
             let mut ok = st.greeted && !st.sent_terminal && !st.got_terminal;
+            // C15's quantifier is "every pattern of Pull": a sink that keeps pulling after the end
+            if !ok && kind == SendKind::Pull && self.spec.pull_after_end && st.greeted && !st.sent_terminal {
+                ok = true;
+            }
             if ok && kind == SendKind::Pull && self.spec.credit && st.pulls_sent >= st.msgs {
                 ok = false;
             }
